@@ -83,6 +83,8 @@ Listed(c) ==
     [] c = 160   -> { <<110, 98, 115, 112, 97, 99, 101>>,                          \* nbspace
                       <<110, 111, 110, 98, 114, 101, 97, 107, 105, 110, 103,
                         115, 112, 97, 99, 101>> }                                  \* nonbreakingspace
+    [] c = 171   -> { <<103, 117, 105, 108, 108, 101, 109, 111, 116, 108, 101, 102, 116>> }   \* guillemotleft
+    [] c = 187   -> { <<103, 117, 105, 108, 108, 101, 109, 111, 116, 114, 105, 103, 104, 116>> }   \* guillemotright
     [] c = 307   -> { <<105, 106>>, <<105, 95, 106>> }                             \* ij, i_j   (U+0133)
     [] c = 64257 -> { <<102, 105>>, <<102, 95, 105>> }                             \* fi, f_i   (U+FB01)
     [] OTHER     -> {}
